@@ -60,6 +60,7 @@ def chunk_main(pid, seed, lo, hi, sample_mod, conn, want_samples, all_digests=Fa
         "steps": 0,
         "stats": collections.Counter(),
         "states": set(),
+        "transitions": set(),
         "nontrivial": set(),
         "violations": [],
         "samples": [],
@@ -108,6 +109,10 @@ def chunk_main(pid, seed, lo, hi, sample_mod, conn, want_samples, all_digests=Fa
                 out["states"].update(
                     s for s in res.states if s % sample_mod == 0
                 )
+            if sample_mod == 1:
+                out["transitions"].update(res.transitions)
+            else:
+                out["transitions"].update(t for t in res.transitions if t % sample_mod == 0)
             if res.nontrivial:
                 out["nontrivial"].add(int(res.digest[:16], 16))
             if i - lo < 2 or all_digests:
@@ -139,6 +144,7 @@ def chunk_main(pid, seed, lo, hi, sample_mod, conn, want_samples, all_digests=Fa
             pass
     out["stats"] = dict(out["stats"])
     out["states"] = sorted(out["states"])
+    out["transitions"] = sorted(out["transitions"])
     out["nontrivial"] = sorted(out["nontrivial"])
     try:
         conn.send_bytes(json.dumps(out).encode())
@@ -194,6 +200,7 @@ def run_parallel(pid, seed, nruns, workers, sample_mod, wall_cap_s, chunk=None, 
         "steps": 0,
         "stats": collections.Counter(),
         "states": set(),
+        "transitions": set(),
         "nontrivial": set(),
         "violations": [],
         "samples": [],
@@ -210,6 +217,7 @@ def run_parallel(pid, seed, nruns, workers, sample_mod, wall_cap_s, chunk=None, 
         merged["steps"] += d["steps"]
         merged["stats"].update(d["stats"])
         merged["states"].update(d["states"])
+        merged["transitions"].update(d.get("transitions", []))
         merged["nontrivial"].update(d["nontrivial"])
         merged["violations"].extend(d["violations"])
         merged["samples"].extend(d["samples"])
@@ -608,6 +616,11 @@ def write_evidence(prop, tier, seed, merged, wall, n_viol, n_known, reported, ha
         "harness_errors": [e[-500:] for e in harness_errors],
         "exhaustive": False,
     }
+    if tier == "quick":
+        cov["transitions"] = len(merged["transitions"])
+        cov["transitions_measure"] = "distinct (state before, operation kind, state after) triples"
+    else:
+        cov["transitions_in_1_of_16_hash_sample"] = len(merged["transitions"])
     if tier == "quick":
         cov["states"] = len(merged["states"])
         cov["states_measure"] = "distinct sha256 of the normalised world snapshot after each step"
